@@ -88,6 +88,29 @@ def structured_family():
               [Method("show", [], VOID, [Echo(Fld(This(), "b0")), Echo(Fld(This(), "g")), Echo(Fld(This(), "d"))])],
               [Ctor([], [Super()])], [], base_targs=[P("int")])
     out.append(("generic base over a plain base", Program([Func("main", [], VOID, [Decl(C("D"), "x", New("D")), Expr(MCall(Var("x"), "show"))])], [base0, g, d])))
+    # 6. a base class's static read through the name of a derived class, from a third class's static initialiser
+    lim = Class("Limits", "", [Field(P("int"), "cap", I(40), static=True), Field(P("int"), "floor", I(2), static=True)], [], [Ctor([], [], default=True)], [])
+    tight = Class("TightLimits", "Limits", [], [], [Ctor([], [Super()])], [])
+    plan = Class("Plan", "", [Field(P("int"), "budget", Bin("+", SFld("TightLimits", "cap"), SFld("TightLimits", "floor")), static=True)], [], [], [], static=True)
+    out.append(("inherited static read through the derived class name", Program([
+        Func("report", [], VOID, [Echo(SFld("Plan", "budget"))]),
+        Func("main", [], VOID, [Expr(Call("report")), Echo(SFld("Limits", "cap")), Echo(SFld("TightLimits", "floor"))])], [lim, tight, plan])))
+    # 7. a plain class over two generic levels over a plain base with fields
+    dev = Class("Device", "", [Field(P("int"), "id")], [Method("label", [], P("int"), [Ret(Bin("+", Fld(This(), "id"), I(1000)))], virtual=True)],
+                [Ctor([Param(P("int"), "id0")], [Expr(FAsg(This(), "id", Var("id0")))])], [])
+    sens = Class("Sensor", "Device", [Field(P("int"), "samples")], [], [Ctor([Param(P("int"), "i"), Param(P("int"), "n")], [Super(Var("i")), Expr(FAsg(This(), "samples", Var("n")))])], [],
+                 tparams=["T"])
+    cal = Class("Calibrated", "Sensor", [Field(P("int"), "offset"), Field(P("T"), "unit")], [],
+                [Ctor([Param(P("int"), "i"), Param(P("int"), "n"), Param(P("T"), "u")], [Super(Var("i"), Var("n")), Expr(FAsg(This(), "offset", I(3))), Expr(FAsg(This(), "unit", Var("u")))])], [],
+                tparams=["T"], base_targs=[P("T")])
+    thermo = Class("Thermometer", "Calibrated", [Field(P("int"), "reading")],
+                   [Method("corrected", [], P("int"), [Ret(Bin("+", Fld(This(), "reading"), Fld(This(), "offset")))])],
+                   [Ctor([Param(P("int"), "i"), Param(P("int"), "r")], [Super(Var("i"), I(8), I(55)), Expr(FAsg(This(), "reading", Var("r")))])], [], base_targs=[P("int")])
+    out.append(("plain class over two generic levels over a plain base", Program([
+        Func("describe", [Param(C("Thermometer"), "t")], VOID, [Echo(MCall(Var("t"), "label")), Echo(Fld(Var("t"), "samples")), Echo(Fld(Var("t"), "offset")),
+                                                                 Echo(Fld(Var("t"), "unit")), Echo(Fld(Var("t"), "reading")), Echo(Fld(Var("t"), "id"))]),
+        Func("main", [], VOID, [Decl(C("Thermometer"), "t", New("Thermometer", I(7), I(21))), Expr(Call("describe", Var("t"))), Echo(MCall(Var("t"), "corrected"))])],
+        [dev, sens, cal, thermo])))
     return out
 
 
